@@ -6,6 +6,7 @@ package bufconfig
 
 import (
 	"bytes"
+	"context"
 	"fmt"
 	"os"
 	"reflect"
@@ -68,6 +69,153 @@ func vrLintOptions() (found int) {
 	return found
 }
 
+// ---- buf.gen.yaml / buf.lock / buf.work.yaml (contract author ca-Z): read -> write -> read over a catalogue per
+// file kind, comparing every accessor of the configuration objects.
+
+func vrDescribeGen(f BufGenYAMLFile) string {
+	var b strings.Builder
+	g := f.GenerateConfig()
+	fmt.Fprintf(&b, "clean=%v", g.CleanPluginOuts())
+	for _, p := range g.GeneratePluginConfigs() {
+		fmt.Fprintf(&b, " plugin{type=%v name=%s out=%s opt=%s imports=%v wkt=%v types=%v exclude_types=%v strategy=%v path=%v protoc_path=%v revision=%d}", p.Type(), p.Name(), p.Out(), p.Opt(), p.IncludeImports(), p.IncludeWKT(), p.IncludeTypes(), p.ExcludeTypes(), p.Strategy(), p.Path(), p.ProtocPath(), p.Revision())
+	}
+	if m := g.GenerateManagedConfig(); m != nil {
+		fmt.Fprintf(&b, " managed{enabled=%v", m.Enabled())
+		for _, d := range m.Disables() {
+			fmt.Fprintf(&b, " disable{path=%s module=%s field=%s file_option=%v field_option=%v}", d.Path(), d.FullName(), d.FieldName(), d.FileOption(), d.FieldOption())
+		}
+		for _, o := range m.Overrides() {
+			fmt.Fprintf(&b, " override{path=%s module=%s field=%s file_option=%v field_option=%v value=%v}", o.Path(), o.FullName(), o.FieldName(), o.FileOption(), o.FieldOption(), o.Value())
+		}
+		b.WriteString("}")
+	}
+	for _, i := range f.InputConfigs() {
+		depth := "nil"
+		if i.Depth() != nil {
+			depth = fmt.Sprint(*i.Depth())
+		}
+		fmt.Fprintf(&b, " input{type=%v location=%s compression=%s strip_components=%d subdir=%s branch=%s commit_or_tag=%s ref=%s depth=%s recurse_submodules=%v include_package_files=%v types=%v exclude_types=%v paths=%v exclude_paths=%v}", i.Type(), i.Location(), i.Compression(), i.StripComponents(), i.SubDir(), i.Branch(), i.CommitOrTag(), i.Ref(), depth, i.RecurseSubmodules(), i.IncludePackageFiles(), i.IncludeTypes(), i.ExcludeTypes(), i.TargetPaths(), i.ExcludePaths())
+	}
+	return b.String()
+}
+
+// vrGenDocs: v2 generation templates (the writer always writes the v2 shape, so only v2 documents can round-trip
+// to the same configuration; a v1 template is translated, which the property does not call a round trip).
+func vrGenDocs() []string {
+	return []string{
+		"version: v2\nplugins:\n  - local: protoc-gen-go\n    out: gen\n    types:\n      - a.B\n",
+		"version: v2\nplugins:\n  - local: protoc-gen-go\n    out: gen\n    exclude_types:\n      - a.B\n",
+		"version: v2\nplugins:\n  - local: p\n    out: gen\ninputs:\n  - directory: proto\n    exclude_types:\n      - a.B\n",
+		"version: v2\nplugins:\n  - remote: buf.build/protocolbuffers/go\n    out: gen\n    revision: 2\n    opt:\n      - a=b\n      - c\n    include_imports: true\n    include_wkt: true\n",
+		"version: v2\nplugins:\n  - protoc_builtin: java\n    out: gen\n    protoc_path: /usr/bin/protoc\n    strategy: all\n",
+		"version: v2\nplugins:\n  - local: [go, run, x]\n    out: gen\n    strategy: directory\n    opt: a=b\n",
+		"version: v2\nplugins:\n  - local: p\n    out: gen\ninputs:\n  - git_repo: github.com/a/b\n    tag: v1\n    depth: 3\n    subdir: x\n    types: [a.B]\n    paths: [p]\n    exclude_paths: [q]\n  - tarball: a.tar.gz\n    compression: gzip\n    strip_components: 2\n  - proto_file: a.proto\n    include_package_files: true\n  - module: buf.build/a/b\n",
+		"version: v2\nclean: true\nplugins:\n  - local: p\n    out: gen\nmanaged:\n  enabled: true\n  disable:\n    - file_option: java_package\n    - path: a\n      field_option: jstype\n    - module: buf.build/a/b\n  override:\n    - file_option: java_package_prefix\n      value: com\n    - file_option: optimize_for\n      module: buf.build/a/b\n      value: SPEED\n    - field_option: jstype\n      field: a.B.c\n      value: JS_STRING\n",
+	}
+}
+
+func vrGenRoundTrips() (found int) {
+	for _, doc := range vrGenDocs() {
+		f1, err := ReadBufGenYAMLFile(strings.NewReader(doc))
+		if err != nil {
+			continue
+		}
+		var buf bytes.Buffer
+		if err := WriteBufGenYAMLFile(&buf, f1); err != nil {
+			continue
+		}
+		f2, err := ReadBufGenYAMLFile(bytes.NewReader(buf.Bytes()))
+		if err != nil {
+			fmt.Printf("VERIF-REPLAY FAILING-INPUT buf.gen.yaml %q is written back as %q which does not read: %v\n", doc, buf.String(), err)
+			found++
+			continue
+		}
+		if d1, d2 := vrDescribeGen(f1), vrDescribeGen(f2); d1 != d2 {
+			fmt.Printf("VERIF-REPLAY FAILING-INPUT buf.gen.yaml %q read->write->read changes the configuration: before %s, written %q, after %s\n", doc, d1, buf.String(), d2)
+			found++
+		}
+	}
+	return found
+}
+
+func vrDescribeLock(f BufLockFile) string {
+	var b strings.Builder
+	fmt.Fprintf(&b, "version=%v", f.FileVersion())
+	for _, k := range f.DepModuleKeys() {
+		d, err := k.Digest()
+		fmt.Fprintf(&b, " dep{name=%s commit=%v digest=%v err=%v}", k.FullName().String(), k.CommitID(), d, err)
+	}
+	for _, k := range f.RemotePluginKeys() {
+		d, err := k.Digest()
+		fmt.Fprintf(&b, " plugin{name=%s commit=%v digest=%v err=%v}", k.FullName().String(), k.CommitID(), d, err)
+	}
+	return b.String()
+}
+
+func vrLockRoundTrips() (found int) {
+	docs := []string{
+		"version: v2\ndeps:\n  - name: buf.testing/acme/extension\n    commit: b8488077ea6d4f6d9562a337b98259c8\n    digest: b5:d2c1da8f8331c5c75b50549c79fc360394dedfb6a11f5381c4523592018964119f561088fc8aaddfc9f5773ba02692e6fd9661853450f76a3355dec62c1f57b4\n  - name: buf.testing/acme/date\n    commit: ffded0b4cf6b47cab74da08d291a3c2f\n    digest: b5:24ed4f13925cf89ea0ae0127fa28540704c7ae14750af027270221b737a1ce658f8014ca2555f6f7fcd95ea84e071d33f37f86cc36d07fe0d0963329a5ec2462\n",
+		"version: v1\ndeps:\n  - remote: buf.testing\n    owner: acme\n    repository: extension\n    commit: b8488077ea6d4f6d9562a337b98259c8\n    digest: shake256:6892463bdaa65fd9944c39cbc8398d3154bf54c6725c1e8096d28de25ad83b0200fccc8da0d96979171b905342b9553b7d4db15cbe243a708f472e43926affc0\n  - remote: buf.testing\n    owner: acme\n    repository: date\n    commit: ffded0b4cf6b47cab74da08d291a3c2f\n    digest: shake256:0d698ce17cbe2d0f4e927005e03822423747d759ba7948c53e89baa1303a9e6d090594ba8ba7bc7d83ac57bb4346426f186846dd610562663e83f095b5bf6c00\n",
+		"version: v1beta1\ndeps:\n  - remote: buf.testing\n    owner: acme\n    repository: date\n    commit: ffded0b4cf6b47cab74da08d291a3c2f\n    digest: shake256:0d698ce17cbe2d0f4e927005e03822423747d759ba7948c53e89baa1303a9e6d090594ba8ba7bc7d83ac57bb4346426f186846dd610562663e83f095b5bf6c00\n",
+		"version: v2\n",
+	}
+	ctx := context.Background()
+	for _, doc := range docs {
+		f1, err := ReadBufLockFile(ctx, strings.NewReader(doc), "buf.lock")
+		if err != nil {
+			continue
+		}
+		var buf bytes.Buffer
+		if err := WriteBufLockFile(&buf, f1); err != nil {
+			continue
+		}
+		f2, err := ReadBufLockFile(ctx, bytes.NewReader(buf.Bytes()), "buf.lock")
+		if err != nil {
+			fmt.Printf("VERIF-REPLAY FAILING-INPUT buf.lock %q is written back as %q which does not read: %v\n", doc, buf.String(), err)
+			found++
+			continue
+		}
+		var buf2 bytes.Buffer
+		_ = WriteBufLockFile(&buf2, f2)
+		if d1, d2 := vrDescribeLock(f1), vrDescribeLock(f2); d1 != d2 || buf.String() != buf2.String() {
+			fmt.Printf("VERIF-REPLAY FAILING-INPUT buf.lock %q read->write->read changes the configuration or the second write differs: before %s, written %q, after %s, written again %q\n", doc, d1, buf.String(), d2, buf2.String())
+			found++
+		}
+	}
+	return found
+}
+
+func vrWorkRoundTrips() (found int) {
+	docs := []string{
+		"version: v1\ndirectories:\n  - proto\n  - vendor/x\n",
+		"version: v1\ndirectories:\n  - ./b/\n  - a//c\n",
+		"version: v1\ndirectories:\n  - z\n  - a\n  - m/n\n",
+	}
+	for _, doc := range docs {
+		f1, err := ReadBufWorkYAMLFile(strings.NewReader(doc), "buf.work.yaml")
+		if err != nil {
+			continue
+		}
+		var buf bytes.Buffer
+		if err := WriteBufWorkYAMLFile(&buf, f1); err != nil {
+			continue
+		}
+		f2, err := ReadBufWorkYAMLFile(bytes.NewReader(buf.Bytes()), "buf.work.yaml")
+		if err != nil {
+			fmt.Printf("VERIF-REPLAY FAILING-INPUT buf.work.yaml %q is written back as %q which does not read: %v\n", doc, buf.String(), err)
+			found++
+			continue
+		}
+		var buf2 bytes.Buffer
+		_ = WriteBufWorkYAMLFile(&buf2, f2)
+		if !reflect.DeepEqual(f1.DirPaths(), f2.DirPaths()) || buf.String() != buf2.String() {
+			fmt.Printf("VERIF-REPLAY FAILING-INPUT buf.work.yaml %q read->write->read changes the directories or the second write differs: before %v, written %q, after %v, written again %q\n", doc, f1.DirPaths(), buf.String(), f2.DirPaths(), buf2.String())
+			found++
+		}
+	}
+	return found
+}
+
 func TestVerifReplayC16(t *testing.T) {
 	obl := os.Getenv("VERIF_REPLAY_OBLIGATION")
 	docs := []string{
@@ -81,10 +229,31 @@ func TestVerifReplayC16(t *testing.T) {
 		"version: v1\nlint:\n  ignore:\n    - .\n",
 		"version: v1\nbreaking:\n  ignore:\n    - .\n",
 		"version: v1\nlint:\n  use:\n    - DEFAULT\n  ignore:\n    - a\n",
+		// module part (ca-Z): names, deps, roots, includes and excludes
+		"version: v1beta1\nname: buf.build/acme/x\ndeps:\n  - buf.build/acme/z\n  - buf.build/acme/a:main\nbuild:\n  roots:\n    - proto\n    - vendor\n  excludes:\n    - proto/a/b\n    - vendor/c\n",
+		"version: v1\nname: buf.build/acme/x\ndeps:\n  - buf.build/acme/z\nbuild:\n  excludes:\n    - a/b\n    - c\n",
+		"version: v2\nmodules:\n  - path: proto\n    name: buf.build/acme/x\n    includes:\n      - proto/a\n      - proto/b\n    excludes:\n      - proto/a/x\n  - path: vendor\n    excludes:\n      - vendor/y\ndeps:\n  - buf.build/acme/z\n  - buf.build/acme/a:v1\n",
+		"version: v2\nname: buf.build/acme/x\ndeps:\n  - buf.build/acme/z\n",
 	}
 	found := 0
 	if strings.Contains(obl, "getLintConfigForExternalLint") {
 		found += vrLintOptions()
+	}
+	// the other file kinds: each has its own catalogue (the buf.yaml catalogue below says nothing about them)
+	otherKind := false
+	switch {
+	case strings.Contains(obl, "GeneratePluginConfig") || strings.Contains(obl, "BufGenYAML") || strings.Contains(obl, "InputConfig") || strings.Contains(obl, "ManagedConfig") || strings.Contains(obl, "GenerateConfig"):
+		found += vrGenRoundTrips()
+		otherKind = true
+	case strings.Contains(obl, "BufLockFile"):
+		found += vrLockRoundTrips()
+		otherKind = true
+	case strings.Contains(obl, "BufWorkYAML"):
+		found += vrWorkRoundTrips()
+		otherKind = true
+	}
+	if otherKind {
+		docs = nil
 	}
 	for _, doc := range docs {
 		want := ""
